@@ -39,6 +39,15 @@ Theorem C13_backward_uses_forward_options : forall bck fwd k,
 Proof. move=> bck fwd k; exact: options_union_spec. Qed.
 Print Assumptions C13_backward_uses_forward_options.
 
+(* T5: the gradient w.r.t. the LIMITS.  The backward pass of quad returns the Leibniz formula f(xu) D xu - f(xl) D xl; for every
+   integrand the forward rule integrates exactly (polynomials of degree <= d = 2n-1 with parameter-independent coefficients) this
+   IS the derivative of the forward value, for limits in any order, every number of nodes and every derivation *)
+Theorem C13_limits_gradient_is_leibniz : forall (F : numFieldType) n (x w : 'I_n -> F) (D : derivation F) d xl xu (p : {poly F}),
+  moments_exact x w d -> (size p <= d.+1)%N -> (forall k, D p`_k = 0) ->
+  D (Q x w xl xu (fun t => p.[t])) = p.[xu] * D xu - p.[xl] * D xl.
+Proof. exact limits_gradient_leibniz. Qed.
+Print Assumptions C13_limits_gradient_is_leibniz.
+
 Example C13_nonvacuous_options :
   oget "n"%string (bck_config (("n"%string, 7%N) :: ("method"%string, 1%N) :: nil) nil) = Some 7%N /\
   oget "n"%string (bck_config (("n"%string, 7%N) :: nil) (("n"%string, 11%N) :: nil)) = Some 11%N.
